@@ -3,9 +3,9 @@ import ast
 
 from ..core import rule
 from ..index import AnalysisError, dotted, src, walk_no_nested, names_in
-from ..cfg import CFG
+from ..cfg import CFG, UNK
 from ..domains import check_pred, check_exprs, linform, Lin, rounding
-from ..util import node_calls, own_expr
+from ..util import node_calls, own_expr, explore
 from .slots import BINCOUNTS
 
 CF = 'count_fragments_binned'
@@ -197,6 +197,36 @@ def r5(ctx):
     kw = {k.arg: src(k.value) for k in call[0].keywords} if call else {}
     ok = kw.get('start') == 'f_start' and kw.get('stop') == 'f_end' and kw.get('contig') == 'contig'
     ctx.emit('C12-R5', ok, BINCOUNTS, loop, f'fetch(contig={kw.get("contig")}, start={kw.get("start")}, stop={kw.get("stop")})', key='fetch-call', nontrivial=False)
+
+
+@rule('C12', 'C12-R6', 'a read that passed the filters and lies in the job is counted on every path: between the ownership test and the increment nothing '
+                       'skips it (also not a missing optional tag), and results of different jobs are merged per (bin, sample), never by replacing a whole bin')
+def r6(ctx):
+    f, loop = _count_loop(ctx)
+    # the ownership test: the guard over (site, start, end) whose body continues
+    own = [s_ for s_ in loop.body if isinstance(s_, ast.If) and {'start', 'end'} <= names_in(s_.test) and s_.body and isinstance(s_.body[-1], ast.Continue)]
+    if len(own) != 1:
+        raise AnalysisError('count_fragments_binned: ownership test `site < start or site >= end` not found at loop level')
+    after = loop.body[loop.body.index(own[0]) + 1:]
+
+    def may_raise(kind, a):
+        if kind in ('with_exit', 'except') or isinstance(a, ast.Raise):
+            return set()
+        tgt = a.test if kind == 'test' else a.iter if kind == 'for' else a
+        return {'KeyError'} if any(isinstance(n_, ast.Call) and isinstance(n_.func, ast.Attribute) and n_.func.attr == 'get_tag' for n_ in walk_no_nested(tgt)) else set()
+    rs = explore(after, lambda e: UNK, may_raise=may_raise, is_subclass=ctx.ix.is_subclass_name)
+    ctx.counters['paths_enumerated'] += len(rs)
+    skipped = [r for r in rs if r['kind'] in ('fall', 'continue', 'break') and not any(t.startswith('counts[') and t.count('[') == 2 for t, v, k in r['stores'])]
+    ctx.emit('C12-R6', bool(rs) and not skipped, BINCOUNTS, own[0], f'{len(rs)} paths from the ownership test to the end of the iteration (KeyError of get_tag modelled): every one increments a (bin, sample) counter'
+             if rs and not skipped else f'a path after the ownership test ends the iteration without counting the read: {skipped[0]["path"][-300:] if skipped else None}',
+             key='owned-read-always-counted', what='count_fragments_binned: an owned read is skipped (e.g. because an optional tag is missing)')
+    o = ctx.fn(BINCOUNTS, 'obtain_counts')
+    whole = [c for c in walk_no_nested(o) if isinstance(c, ast.Call) and isinstance(c.func, ast.Attribute) and c.func.attr == 'update' and src(c.func.value) == 'counts']
+    per_bin = [c for c in walk_no_nested(o) if isinstance(c, ast.Call) and isinstance(c.func, ast.Attribute) and c.func.attr == 'update' and src(c.func.value).startswith('counts[')]
+    ctx.emit('C12-R6', not whole and bool(per_bin), BINCOUNTS, whole[0] if whole else (per_bin[0] if per_bin else o),
+             'obtain_counts merges a job result into an existing bin per sample (counts[bin].update(samples))' if not whole and per_bin else
+             'obtain_counts replaces whole bins (counts.update(result)): samples another job reported for the same bin are dropped (several input files share bins)',
+             key='merge-per-bin-and-sample', what='obtain_counts: job results are merged by replacing whole bins')
 
 
 META = {
